@@ -67,6 +67,18 @@ Theorem C07_checked_history_fair : forall L caps obs, NoDup L ->
   get (last (map snd obs) []) a <= S (get (last (map snd obs) []) b).
 Proof. exact checked_history_fair. Qed.
 
+(* a call site judged by the selections it actually made (whatever it stored): if every step is valid against the counts the
+   selections themselves imply, the numbers of selections of two candidates differ by at most one *)
+Theorem C07_selection_history_fair : forall L caps sels, NoDup L ->
+  valid_runb [] (map (fun c => (L, c)) caps) (derived_obs [] sels) = true ->
+  forall a b, In a L -> In b L -> sel_count sels a <= S (sel_count sels b).
+Proof. exact selection_history_fair. Qed.
+
+(* a reported table accepted by [reportb] gives every combination the number of batches' selections it occurs in *)
+Theorem C07_report_sound : forall sels rep, reportb sels rep = true ->
+  forall k, get rep k = list_sum (map (fun sel => count_occ Nat.eq_dec sel k) sels).
+Proof. exact reportb_sound. Qed.
+
 Print Assumptions C07_step_valid.
 Print Assumptions C07_checker_sound.
 Print Assumptions C07_subset.
@@ -78,3 +90,5 @@ Print Assumptions C07_shared_counter_refuted.
 Print Assumptions C07_counts_are_selections.
 Print Assumptions C07_model_fair.
 Print Assumptions C07_checked_history_fair.
+Print Assumptions C07_selection_history_fair.
+Print Assumptions C07_report_sound.
